@@ -385,7 +385,7 @@ def timeline_vs_reference(tier, seed):
     years = [-10001, -10000, -9999, -401, -400, -101, -5, -4, -1, 0, 1, 2, 4, 100, 400, 1900, 2000, 9999, 10000, 10001, 12000]
     days = [(1, 1), (2, 28), (2, 29), (3, 1), (12, 31)]
     times = [(0, 0, 0), (0, 30, 0), (23, 59, Fraction(119, 2))]
-    tzs = [None, 0, 300, -840]
+    tzs = [None, 0, 300, -840, -30]
     if tier == 'quick':
         years = [y for y in years if y not in (-401, -101, 2, 100, 1900, 10001)]
     for version in ('1.0', '1.1'):
@@ -511,4 +511,179 @@ def _replay_timeline(f):
     return all(x['key'] != f['key'] for x in _CACHE['r']['failures'])
 
 
-BOUNDED = [Bounded('timeline_vs_integer_day_count_reference', timeline_vs_reference, _replay_timeline)]
+def components_and_constructors(tier, seed):
+    """Component extraction (year/month/day/hours/minutes/seconds/timezone-from-*, *-from-duration), the two-argument fn:dateTime, timezones below one hour,
+    24:00:00, and subtraction/frame with and without an implicit timezone in the context; oracles computed from the lexical fields with exact rationals."""
+    import decimal as _d
+    fam, n, seen = {}, 0, set()
+
+    def bad(k, **w):
+        fam.setdefault(k, []).append(w)
+    P = XPath31Parser
+
+    def ev(expr, version='1.0', timezone=None, **v):
+        try:
+            r = P(xsd_version=version).parse(expr).evaluate(XPathContext(root=None, item=1, variables=v, timezone=timezone))
+            return 'ok', r
+        except ElementPathError as e:
+            return 'err', e.code.split(':')[-1] if isinstance(e.code, str) else str(e.code)
+        except Exception as e:      # noqa
+            return 'crash', f'{type(e).__name__}: {e}'[:90]
+    years = [-10000, -1, 0, 1, 4, 1999, 2000, 9999, 10000, 123456]
+    mds = [(1, 1), (2, 28), (2, 29), (12, 31), (7, 15)]
+    times = [(0, 0, Fraction(0)), (7, 8, Fraction(9)), (23, 59, Fraction(119, 2)), (0, 0, Fraction(7005, 1000)), (12, 30, Fraction(123456, 1000000)), (1, 2, Fraction(1, 1000))]
+    tzs = [None, 0, 330, -30, -1, -840, 840]
+
+    def tz_text(tz):
+        return '' if tz is None else 'Z' if tz == 0 else ('+' if tz > 0 else '-') + f'{abs(tz) // 60:02d}:{abs(tz) % 60:02d}'
+
+    def sec_text(sv):
+        whole, frac = int(sv), sv - int(sv)
+        return f'{whole:02d}' + (('.' + str(_d.Decimal(frac.numerator) / _d.Decimal(frac.denominator)).split('.')[1]) if frac else '')
+
+    def tz_dur(tz):
+        if tz == 0:
+            return 'PT0S'
+        h, m = abs(tz) // 60, abs(tz) % 60
+        return ('-' if tz < 0 else '') + 'PT' + (f'{h}H' if h else '') + (f'{m}M' if m else '')
+
+    def same_num(got, want):
+        return got[0] == 'ok' and not isinstance(got[1], (list, bool)) and isinstance(got[1], (int, _d.Decimal)) and Fraction(got[1]) == want
+    rng = random.Random(11)
+    combos = list(itertools.product(years, mds, times, tzs))
+    if tier == 'quick':
+        combos = rng.sample(combos, 420)
+    for version in ('1.0', '1.1'):
+        for y, (mo, d), (h, mi, sv), tz in combos:
+            if (mo, d) == (2, 29) and not (y % 4 == 0 and (y % 100 != 0 or y % 400 == 0)):
+                continue
+            ly = y if version == '1.1' or y > 0 else y - 1          # lexical year
+            ytext = ('-' if ly < 0 else '') + f'{abs(ly):04d}'
+            date_t, time_t = f'{ytext}-{mo:02d}-{d:02d}', f'{h:02d}:{mi:02d}:{sec_text(sv)}'
+            dt = f'{date_t}T{time_t}{tz_text(tz)}'
+            seen.add((version, y <= 0, y > 9999, bool(sv % 1), tz is None))
+            for fn_, text, want in (('year-from-dateTime', dt, ly), ('month-from-dateTime', dt, mo), ('day-from-dateTime', dt, d), ('hours-from-dateTime', dt, h),
+                                    ('minutes-from-dateTime', dt, mi), ('seconds-from-dateTime', dt, sv),
+                                    ('year-from-date', date_t + tz_text(tz), ly), ('month-from-date', date_t + tz_text(tz), mo), ('day-from-date', date_t + tz_text(tz), d),
+                                    ('hours-from-time', time_t + tz_text(tz), h), ('minutes-from-time', time_t + tz_text(tz), mi), ('seconds-from-time', time_t + tz_text(tz), sv)):
+                n += 1
+                typ = 'dateTime' if 'dateTime' in fn_ else 'date' if 'date' in fn_ else 'time'
+                got = ev(f'{fn_}(xs:{typ}($t))', version, t=text)
+                if not same_num(got, want):
+                    bad(f'{fn_} does not return the component of the value', text=text, xsd=version, got=repr(got)[:70], expected=str(want))
+            for fn_, typ, text in (('timezone-from-dateTime', 'dateTime', dt), ('timezone-from-date', 'date', date_t + tz_text(tz)), ('timezone-from-time', 'time', time_t + tz_text(tz))):
+                n += 1
+                got = ev(f'{fn_}(xs:{typ}($t))', version, t=text)
+                ok = got == ('ok', []) if tz is None else (got[0] == 'ok' and str(got[1]) == tz_dur(tz))
+                if not ok:
+                    bad(f'{fn_} does not return the timezone of the value', text=text, xsd=version, got=repr(got)[:70], expected='()' if tz is None else tz_dur(tz))
+            # the two-argument fn:dateTime: the timezone is the one both agree on, or the only one present
+            for tz2 in (None, 0, 330, -30):
+                n += 1
+                got = ev('string(dateTime(xs:date($a), xs:time($b)))', version, a=date_t + tz_text(tz), b=time_t + tz_text(tz2))
+                if tz is not None and tz2 is not None and tz != tz2:
+                    ok, want = got == ('err', 'FORG0008'), 'FORG0008'
+                else:
+                    rtz = tz if tz is not None else tz2
+                    want = f'{date_t}T{time_t}{tz_text(rtz)}'
+                    ok = got == ('ok', want)
+                if not ok:
+                    bad('fn:dateTime($date, $time) does not combine the components and timezones of its arguments', date=date_t + tz_text(tz), time=time_t + tz_text(tz2), xsd=version,
+                        got=repr(got)[:80], expected=want)
+    # 24:00:00 is the first instant of the next day, also across a year boundary and beyond year 9999
+    for version in ('1.0', '1.1'):
+        for y, mo, d in ((1999, 12, 31), (2000, 2, 28), (2000, 2, 29), (9999, 12, 31), (10000, 12, 31), (12345, 6, 30), (0, 12, 31), (-1, 12, 31), (-4, 2, 28)):
+            ly = y if version == '1.1' or y > 0 else y - 1
+            ytext = ('-' if ly < 0 else '') + f'{abs(ly):04d}'
+            ny, nm, nd = _civil_from_days(_days_from_civil(y, mo, d) + 1)
+            nly = ny if version == '1.1' or ny > 0 else ny - 1
+            want = ('-' if nly < 0 else '') + f'{abs(nly):04d}-{nm:02d}-{nd:02d}T00:00:00'
+            n += 1
+            seen.add(('24h', version, y))
+            got = ev('string(xs:dateTime($t))', version, t=f'{ytext}-{mo:02d}-{d:02d}T24:00:00')
+            if got != ('ok', want):
+                bad('xs:dateTime with 24:00:00 is not the first instant of the following day', text=f'{ytext}-{mo:02d}-{d:02d}T24:00:00', xsd=version, got=repr(got)[:70], expected=want)
+    # duration + date/time in both operand orders, for every date/time type (F&O operator mapping), and xs:dateTimeStamp arithmetic (XSD 1.1)
+    for typ, text in (('dateTime', '2000-02-28T23:00:00Z'), ('date', '2000-02-28'), ('time', '23:30:00'), ('dateTimeStamp', '2000-02-28T23:00:00+01:00'), ('dateTime', '-0001-12-31T00:00:00'),
+                      ('dateTime', '10000-12-31T00:00:00Z'), ('dateTimeStamp', '10000-12-31T00:00:00Z')):
+        for dur, dtyp in (('P1D', 'dayTimeDuration'), ('PT90M', 'dayTimeDuration'), ('-PT36H', 'dayTimeDuration'), ('P1Y1M', 'yearMonthDuration'), ('-P2M', 'yearMonthDuration')):
+            if typ == 'time' and dtyp == 'yearMonthDuration':
+                continue
+            n += 1
+            seen.add(('commute', typ, dtyp))
+            version = '1.1' if typ == 'dateTimeStamp' else '1.0'
+            r1 = ev(f'string(xs:{typ}($t) + xs:{dtyp}($d))', version, t=text, d=dur)
+            r2 = ev(f'string(xs:{dtyp}($d) + xs:{typ}($t))', version, t=text, d=dur)
+            r3 = ev(f'string((xs:{typ}($t) + xs:{dtyp}($d)) - xs:{dtyp}($d))', version, t=text, d=dur)
+            r4 = ev(f'(xs:{typ}($t) + xs:{dtyp}($d)) instance of xs:{typ}', version, t=text, d=dur)
+            if r1[0] != 'ok' or r1 != r2:
+                bad(f'xs:{dtyp} + xs:{typ} differs from xs:{typ} + xs:{dtyp}', value=text, duration=dur, value_plus_duration=repr(r1)[:70], duration_plus_value=repr(r2)[:70])
+            elif dtyp == 'dayTimeDuration' and typ != 'date' and r3 != ('ok', text):
+                bad('(d + dur) - dur is not d', value=text, type=typ, duration=dur, got=repr(r3)[:70])
+            if r4 != ('ok', True):
+                bad(f'xs:{typ} + duration is not an xs:{typ}', value=text, duration=dur, got=repr(r4)[:70])
+    # duration components
+    for text, months, secs in (('P1Y2M3DT4H5M6.005S', 14, Fraction(3 * 86400 + 4 * 3600 + 5 * 60) + Fraction(6005, 1000)), ('-P1Y13M', -25, 0), ('PT36H', 0, 36 * 3600), ('P1D', 0, 86400),
+                               ('-PT0.5S', 0, Fraction(-1, 2)), ('PT90M', 0, 5400), ('P13M', 13, 0), ('-P2DT3H4M5.25S', 0, -(2 * 86400 + 3 * 3600 + 4 * 60 + Fraction(21, 4))),
+                               ('PT0.001S', 0, Fraction(1, 1000)), ('P400D', 0, 400 * 86400), ('PT86399.999S', 0, Fraction(86399999, 1000))):
+        sm, ss = (-1 if months < 0 else 1), (-1 if secs < 0 else 1)
+        am, asec = abs(months), abs(Fraction(secs))
+        want = {'years-from-duration': sm * (am // 12), 'months-from-duration': sm * (am % 12), 'days-from-duration': ss * (asec // 86400),
+                'hours-from-duration': ss * ((asec % 86400) // 3600), 'minutes-from-duration': ss * ((asec % 3600) // 60), 'seconds-from-duration': ss * (asec % 60)}
+        for fn_, w in want.items():
+            n += 1
+            seen.add(('duration', fn_))
+            got = ev(f'{fn_}(xs:duration($t))', t=text)
+            if not same_num(got, w):
+                bad(f'{fn_} does not return the component of the duration', text=text, got=repr(got)[:70], expected=str(w))
+    # subtraction with and without an implicit timezone in the context, in both operand orders; operands bound to variables are not changed
+    from elementpath.datatypes import DateTime, Date, Time
+    for timezone, itz in ((None, 0), ('Z', 0), ('+05:00', 300), ('-00:30', -30)):
+        for ta, tza in (('2000-01-01T12:00:00', None), ('2000-01-01T12:00:00+02:00', 120), ('2000-01-01T12:00:00-00:30', -30), ('2000-01-01T12:00:00Z', 0)):
+            for tb, tzb in (('2000-01-02T00:00:00', None), ('2000-01-02T00:00:00-05:00', -300), ('1999-12-31T23:30:00+00:30', 30)):
+                def inst(t, tzv):
+                    yy, mm, dd, hh, mi_, ss_ = int(t[0:4]), int(t[5:7]), int(t[8:10]), int(t[11:13]), int(t[14:16]), int(t[17:19])
+                    return _instant(yy, mm, dd, hh, mi_, ss_, itz if tzv is None else tzv)
+                a, b = DateTime.fromstring(ta), DateTime.fromstring(tb)
+                before = (str(a), a.tzinfo, str(b), b.tzinfo)
+                n += 1
+                seen.add(('implicit', timezone, tza is None, tzb is None))
+                for expr, want in (('$a - $b', inst(ta, tza) - inst(tb, tzb)), ('$b - $a', inst(tb, tzb) - inst(ta, tza))):
+                    got = ev(expr, timezone=timezone, a=a, b=b)
+                    secs = _seconds_of_duration(got[1]) if got[0] == 'ok' else None
+                    if secs != want:
+                        bad('dateTime - dateTime with an operand without timezone is not the elapsed time under the implicit timezone', a=ta, b=tb, expr=expr,
+                            implicit_timezone=timezone or 'none (UTC)', got=repr(got)[:60], expected_seconds=float(want))
+                ia, ib = inst(ta, tza), inst(tb, tzb)
+                for op, want in (('eq', ia == ib), ('lt', ia < ib), ('ge', ia >= ib), ('=', ia == ib), ('>', ia > ib), ('!=', ia != ib)):
+                    n += 1
+                    got = ev(f'$a {op} $b', timezone=timezone, a=a, b=b)
+                    if got != ('ok', want):
+                        bad('comparison of dateTimes with an operand without timezone is not the order of the instants under the implicit timezone', a=ta, b=tb, op=op,
+                            implicit_timezone=timezone or 'none (UTC)', got=repr(got)[:60], expected=want)
+                if (str(a), a.tzinfo, str(b), b.tzinfo) != before:
+                    bad('subtraction or comparison changes the timezone of an operand bound to a variable', a=ta, b=tb, implicit_timezone=timezone or 'none', after=f'{a} {b}')
+    for expr, mk_ in (("xs:date('2000-01-02Z') - $d", lambda: Date.fromstring('2000-01-01')), ("xs:time('12:00:00Z') - $d", lambda: Time.fromstring('10:00:00')),
+                      ("xs:dateTime('2000-01-02T00:00:00Z') - $d", lambda: DateTime.fromstring('2000-01-01T00:00:00')), ("$d - xs:dateTime('2000-01-02T00:00:00Z')", lambda: DateTime.fromstring('2000-01-01T00:00:00')),
+                      ("$d lt xs:dateTime('2000-01-02T00:00:00Z')", lambda: DateTime.fromstring('2000-01-01T00:00:00')), ("max(($d, xs:dateTime('2000-01-02T00:00:00Z')))", lambda: DateTime.fromstring('2000-01-01T00:00:00'))):
+        n += 1
+        v = mk_()
+        before = (str(v), v.tzinfo)
+        ev(expr, timezone='+03:00', d=v)
+        if (str(v), v.tzinfo) != before:
+            bad('an operation under an implicit timezone changes the timezone of an operand bound to a variable', expr=expr, before=before[0], after=str(v))
+    fails = [{'key': k, 'items': it[:4], 'count': len(it), 'what': f'{k}: e.g. {it[0]}'} for k, it in fam.items()]
+    return {'evaluations': n, 'distinct': len(seen), 'failures': fails, 'n_failures': len(fails),
+            'scope': f'{len(combos)} dateTime/date/time values per XSD version ({len(years)} years incl. BCE, 0, >9999; 5 days; 6 times with fractional seconds; 7 timezones incl. below one hour) x '
+                     '15 component functions and the two-argument fn:dateTime x 4 time timezones; 24:00:00 on 9 dates x 2 versions; 6 duration component functions on 11 durations; '
+                     'subtraction in both orders under 4 implicit timezones with operand frame', 'rule': 'distinct = (XSD version, year class, fraction, timezone presence)'}
+
+
+def _replay_components(f):
+    if 'c' not in _CACHE:
+        _CACHE['c'] = components_and_constructors('quick', 0)
+    return all(x['key'] != f['key'] for x in _CACHE['c']['failures'])
+
+
+BOUNDED = [Bounded('timeline_vs_integer_day_count_reference', timeline_vs_reference, _replay_timeline),
+           Bounded('components_constructors_and_implicit_timezone', components_and_constructors, _replay_components)]
